@@ -26,6 +26,8 @@ def reader_script(rng, sid):
     sc = {"id": sid, "mode": "reader", "topics": topics, "records": rng.randint(3, 8),
           "startOffset": -2 if rng.random() < 0.85 else -1, "commitIntervalMs": 0 if sync else rng.choice([20, 40]),
           "heartbeatMs": rng.choice([20, 30]), "backoffMs": 60, "watch": False, "drain": False, "steps": []}
+    if rng.random() < 0.4:
+        sc["offsetFetchOrder"] = "reverse"     # the coordinator need not answer OffsetFetch in request order
     steps = sc["steps"]
     live = []
     nm = 0
@@ -216,6 +218,20 @@ def directed():
                 {"op": "sleep", "ms": 400}, {"op": "waitapp", "m": 1}, {"op": "commitlast", "m": 1},
                 {"op": "fetch", "m": 1, "n": 3500, "commit": "none", "wait": True}, {"op": "commitlast", "m": 1}] + ([{"op": "fetch", "m": 2, "n": 3500, "commit": "none", "wait": True},
                 {"op": "commitlast", "m": 2}, {"op": "fetch", "m": 1, "n": 3500, "commit": "none", "wait": True}, {"op": "commitlast", "m": 1}] if k == 2 else [])))
+    # several partitions with different commits, the coordinator answering OffsetFetch in another order than asked
+    out.append(dict(rb, id="D-offsetfetch-reverse-order", topics={"t": 3}, records=8, offsetFetchOrder="reverse", steps=[
+        {"op": "start", "m": 1}, {"op": "fetch", "m": 1, "n": 7, "commit": "sync", "wait": True}, {"op": "rebalance"}, {"op": "sleep", "ms": 300},
+        {"op": "fetch", "m": 1, "n": 5, "commit": "sync", "wait": True}, {"op": "start", "m": 2}, {"op": "sleep", "ms": 300},
+        {"op": "fetch", "m": 1, "n": 60, "commit": "sync", "wait": True}, {"op": "fetch", "m": 2, "n": 60, "commit": "sync", "wait": True},
+        {"op": "fetch", "m": 1, "n": 60, "commit": "sync", "wait": True}]))
+    # LeaveGroup itself fails at Close (member already evicted, coordinator moved, connection dropped): Close still returns, nothing is
+    # sent afterwards and every connection the group opened is closed
+    for code in CODES:
+        for mode_ in ("reader", "cg"):
+            b0 = rb if mode_ == "reader" else base
+            out.append(dict(b0, id="D-leave-fails-%s-%d" % (mode_, code), drain=False, steps=[
+                {"op": "start", "m": 1, "fns": 1}, {"op": "sleep", "ms": 200}, {"op": "inject", "m": 1, "api": "leave", "nth": 0, "code": code},
+                {"op": "stop", "m": 1}, {"op": "sleep", "ms": 200}]))
     # crash-like: member evicted while it holds uncommitted messages, another member takes over
     out.append(dict(rb, id="D-evict", steps=[
         {"op": "start", "m": 1}, {"op": "fetch", "m": 1, "n": 4, "commit": "none", "wait": True}, {"op": "start", "m": 2}, {"op": "sleep", "ms": 250},
